@@ -25,7 +25,7 @@ type gen struct {
 }
 
 func (g *gen) n(lo, hi int, label string) int { return rapid.IntRange(lo, hi).Draw(g.t, label) }
-func (g *gen) pct(p int, label string) bool    { return rapid.IntRange(0, 99).Draw(g.t, label) < p }
+func (g *gen) pct(p int, label string) bool   { return rapid.IntRange(0, 99).Draw(g.t, label) < p }
 
 func pick[T any](g *gen, xs []T, label string) T {
 	return xs[rapid.IntRange(0, len(xs)-1).Draw(g.t, label)]
@@ -282,6 +282,7 @@ func (g *gen) genSpec(k int) *ModSpec {
 		badIdx = g.n(0, nImp-1, "bad-import-index")
 	}
 	hasMemImport := false
+	var mutImported []*mGlobal
 	for i := 0; i < nImp; i++ {
 		var kinds []byte
 		for _, kk := range []byte{kGlobal, kGlobal, kGlobal, kTable, kTable, kMem, kMem, kFunc, kFunc} {
@@ -295,6 +296,19 @@ func (g *gen) genSpec(k int) *ModSpec {
 		kk := pick(g, kinds, "import-kind")
 		c := pick(g, by[kk], "import-target")
 		im := g.importOf(c, i == badIdx)
+		if c.ex.kind == kGlobal && c.ex.g.mut {
+			// excluded class (C04-compiler-aliased-imported-globals): one mutable global object is
+			// never imported under two indices of the same module
+			dup := false
+			for _, o := range mutImported {
+				dup = dup || o == c.ex.g
+			}
+			if dup {
+				evid.Label("excluded:mutable-global-imported-twice", 1)
+				continue
+			}
+			mutImported = append(mutImported, c.ex.g)
+		}
 		if im.Kind == kMem {
 			if hasMemImport {
 				continue
@@ -572,7 +586,7 @@ func (g *gen) genSpec(k int) *ModSpec {
 			}
 			evid.Label("excluded:null-element-item-over-non-null-slot", 1)
 			continue
-		case g.m.postLinkStage(p) == "data" && p.elemShared:
+		case tmpExcludeSharedElemBeforeFailingData && g.m.postLinkStage(p) == "data" && p.elemShared:
 			var keep []ElemSpec
 			for _, e := range s.Elems {
 				if e.Table >= v.nIT {
@@ -679,7 +693,7 @@ func (g *gen) argsFor(in *mInst, st *Step) {
 		st.Args = []uint64{sl}
 		if st.Acc == "htl" || st.Acc == "tcall" {
 			if t.elem == wasmenc.FuncRef && sl < uint64(len(t.fn)) && t.fn[sl] != nil && g.pct(75, "matching-sig") {
-				st.Sig = t.fn[sl].sig
+				st.Sig = t.fn[sl].f.sig
 			} else if st.Acc == "htl" {
 				st.Sig = g.n(0, len(sigs)-1, "lookup-sig")
 			}
@@ -704,7 +718,7 @@ func (g *gen) argsFor(in *mInst, st *Step) {
 		st.Args = []uint64{uint64(pick(g, []int{0, 1, 1, 2, 3}, "mem-delta"))}
 	case "gcall":
 		if f := in.globals[st.Idx].fn; f != nil && g.pct(75, "matching-sig") {
-			st.Sig = f.sig
+			st.Sig = f.f.sig
 		}
 	}
 	if st.Op == "host" && (st.Acc == "hm8" || st.Acc == "hm32" || st.Acc == "hmw8" || st.Acc == "hmsize") {
